@@ -82,7 +82,7 @@ def _replay(item):
                     if w["j"] != "indef" and not same_doc(g, w):
                         bad.append(("ndjson%s: output line differs (%s)" % (" -b" if b else "", celx.evalx_root(e)), {"argv": argv, "stdin": text_in, "stdout": out, "line": k, "expected": w}))
                         break
-            if st["status"] != 99 and status != st["status"]:
+            if 99 not in st["status"] and status not in st["status"]:
                 bad.append(("ndjson%s: exit status %s instead of %s {%s}" % (" -b" if b else "", status, st["status"], kinds), {"argv": argv, "stdin": text_in, "stdout": out, "status": status}))
         # -s: the whole of stdin is one document
         if len(docs) == 1 and docs[0]["j"] != "notjson" and j % 2 == 0:
@@ -104,7 +104,7 @@ def _replay(item):
         argv = ["-n"] + (["-b"] if b else []) + ["--arg", "%s:%s=%s" % (name, tn, vtext), text]
         status, out, err = run_main(argv, "")
         want = st["lines"][0]
-        if st["status"] != 99 and status != st["status"]:
+        if 99 not in st["status"] and status not in st["status"]:
             bad.append(("null-input%s: exit status %s instead of %s (%s)" % (" -b" if b else "", status, st["status"], celx.evalx_root(e)), {"argv": argv, "stdout": out, "stderr": err[:200], "status": status}))
         if want["j"] not in ("noline", "indef"):
             got_lines = parse_lines(out)
@@ -160,7 +160,7 @@ def run(ctx: Ctx) -> int:
         sub += 1
         want = [w for w in s["lines"] if w["j"] != "noline"]
         got = parse_lines(p.stdout)
-        if (s["status"] != 99 and p.returncode != s["status"]) or len(got) != len(want) or any(w["j"] != "indef" and not same_doc(g, w) for g, w in zip(got, want)):
+        if (99 not in s["status"] and p.returncode not in s["status"]) or len(got) != len(want) or any(w["j"] != "indef" and not same_doc(g, w) for g, w in zip(got, want)):
             ctx.disagree("python -m celpy differs from the specification", {"stdin": text_in, "stdout": p.stdout, "status": p.returncode, "expected_status": s["status"]})
     ctx.cov["subprocess_runs"] = sub
     # code -> spec: random documents and streams
@@ -197,7 +197,7 @@ def run(ctx: Ctx) -> int:
     ctx.cov["evaluations"] += len(lines)
     ctx.cov["trace_events"] = len(lines)
     ctx.assumptions += ["a line that is not JSON produces no output line (the implementation's convention, adopted by the specification)",
-                        "the per-document status of a non-boolean result under -b in NDJSON mode is not fixed by the statement and is not compared",
+                        "the per-document status of a non-boolean result under -b in NDJSON mode may be 0 (as the code has it) or 2 (the statement read per document); any other status is a violation",
                         "stdout is compared after JSON parsing (type-strict), not as text"]
     return ctx.finish(rule="TLC enumerates expressions x every stream of up to LEN documents over document kinds (matching, non-matching, erroring, not JSON) x -b, and "
                            "-n runs with typed --arg bindings; per-document independence and worst-status are model invariants; each state is run through "
